@@ -13,6 +13,7 @@ func init() {
 	register("C01", "well-foundedness and relevance of the derived monad combinators", func(c *core.Ctx) {
 		Strat(c, "R-STRAT")
 		Stale(c, "R-STALE", []*packages.Package{c.Pkg("fp"), c.Pkg("statet")}, 25, 15)
+		Rerunnable(c, "R-RERUNNABLE", []*packages.Package{c.Pkg("fp"), c.Pkg("statet")}, 25)
 		Unit(c, "R-UNIT", 8)
 		TemplateCopies(c, "R-COPIES", monadPackages(c), 100)
 		// the Applicative/Chain builders return what their FlatMap definition returns: the first failing operand in
